@@ -494,8 +494,13 @@ class ExprMixin(object):
                     self.assume(st, mk_not(errs))
                     r = st.folder().restrict(r)
                 return r
-            if isinstance(idx, App) and idx.op == "cat" and isinstance(cont, dict):
+            if isinstance(idx, App) and idx.op == "cat" and isinstance(cont, dict) and len(cont):
                 return self.lookup_cat(st, cont, idx, node, module)
+            if isinstance(cont, dict) and len(cont) == 0:
+                # a table that is empty at import time (a cache filled at run time: the store is
+                # a global_write event, whether its key determines the value is the memo rule's matter)
+                self.hazard(st, "KeyError", node, module, TRUE, "lookup %s in an empty table" % short(node))
+                raise Dead()
             raise AnalysisError("E5.subscript", "table lookup with key %r" % (idx,), node, module)
         if isinstance(base, Fin) and is_discrete(idx) and all(
             isinstance(x, (dict, list, tuple)) for x in st.folder().restrict(base).table.values()
